@@ -7,6 +7,10 @@
 // another client host / another ISD-AS, in orders that first fill the listener's
 // key cache with another host's key. The real SCIONClient (DRKey fetcher over the
 // same daemon) measures against the same listener through the relay.
+//
+// Time: the daemon's keys have validity epochs (ScionAuth.tla: clock, EpochOf); the
+// sequences say in which epoch each request arrives and which epoch's key its MAC was
+// computed with; see runSeq for how an epoch boundary is placed between two requests.
 package c13
 
 import (
@@ -343,6 +347,33 @@ func (h *harness) runSeq(id int, c *kcase, kd *keyDaemon, rng *rand.Rand, gap ti
 	return recs, false
 }
 
+// The real client measures before and after an epoch boundary of its ISD-AS: the first
+// exchange leaves the key of the ending epoch in the listener's cache, the second one is
+// made with the new epoch's key on both sides (the client asks the daemon for its transmit
+// time, the listener for its receive time). An exchange during which the boundary passed
+// is marked (amb) and not judged.
+func (h *harness) runE2EEpoch(id int, c *kcase, kd *keyDaemon, rng *rand.Rand, gap time.Duration) []*rec {
+	tc := &tcase{T: "e2e", Mode: "server", Ul: "srv", L4: "udp", Dp: "srv", Dh: "S", Sfam: 4, Dfam: 4,
+		Path: emptyPath, Pl: "ntp", Ak: "valid", Ext: "e2e", Rext: "e2e", Cauth: true, Rm: c.Rm}
+	// a client ISD-AS of its own: the boundary is laid down before any of its keys is handed out
+	tc.cia = addr.MustIAFrom(1, addr.AS(0xff0000010000+iaSeq.Add(2)))
+	defer kd.forget(tc.cia)
+	b := time.Now().Add(2 * gap)
+	kd.setBound(tc.cia, 1, b)
+	eb, _ := kd.epochAt(tc.cia, time.Now())
+	r1 := h.runE2EOne(id, tc, -1, -1, rng).r
+	ea, _ := kd.epochAt(tc.cia, time.Now())
+	r1.Ep, r1.Amb, r1.Cst = eb, ea != eb, "cold"
+	time.Sleep(time.Until(b.Add(gap / 8)))
+	r2 := h.runE2EOne(id, tc, -1, -1, rng).r
+	r2.Ep, _ = kd.epochAt(tc.cia, time.Now())
+	r2.Cst = "prevEpoch"
+	if r1.Amb || r1.Sn != 1 {
+		r2.Cst = "-"
+	}
+	return []*rec{r1, r2}
+}
+
 func TestC13Keys(t *testing.T) {
 	if v := os.Getenv("USE_MOCK_KEYS"); v == "true" || v == "TRUE" {
 		t.Fatal("USE_MOCK_KEYS must not be set for the key-regime driver")
@@ -411,7 +442,10 @@ func TestC13Keys(t *testing.T) {
 				}
 				c := &cases[i]
 				var rs []*rec
-				if c.T == "e2e" {
+				if c.T == "e2eep" {
+					rs = hs[w].runE2EEpoch(i, c, kds[w], rng, 60*time.Millisecond)
+					ne2e.Add(int64(len(rs)))
+				} else if c.T == "e2e" {
 					tc := &tcase{T: "e2e", Mode: "server", Ul: "srv", L4: "udp", Dp: "srv", Dh: "S", Sfam: 4, Dfam: 4,
 						Path: emptyPath, Pl: "ntp", Ak: "valid", Ext: "e2e", Rext: "e2e", Cauth: true, Rm: c.Rm}
 					r := hs[w].runE2EOne(i, tc, -1, -1, rng).r
